@@ -4,8 +4,11 @@ from .fam_collector import CollectorFam
 from .prop_C03 import REPLICA_TRUST
 
 PROP = Property(
-    "C08", ["HsVerif.Props.C08", "HsVerif.Props.C08Agg"], [CollectorFam(), ReplicaFam("c08")],
+    "C08", ["HsVerif.Props.C08", "HsVerif.Props.C08Agg", "HsVerif.Props.C08Gen"], [CollectorFam(), ReplicaFam("c08")],
     facts=[
+        # the collector's only field is written by the translated methods only (Props/C08Gen); the extraction goes by field
+        # NAME: `New` is the Synchronizer's own field `timeouts` (the collector object) in its composite literal
+        {"func": "pkg:protocol/synchronizer#writers.timeoutCollector.timeouts", "exact": ["New", "timeoutCollector.add", "timeoutCollector.deleteOldViews"]},
         {"func": "protocol/synchronizer/timeout_collector.go:timeoutCollector.add", "order": ["ContainsFunc", "append", "QuorumSize", "DeleteFunc"]},
         {"func": "protocol/synchronizer/synchronizer.go:Synchronizer.OnRemoteTimeout", "order": ["View", "signedBy", "Verify", "advanceView", "add", "RemoteTimeoutRule", "SetQC", "advanceView"]},
         {"func": "protocol/synchronizer/timeoutrule_aggregate.go:Aggregate.RemoteTimeoutRule", "order": ["CreateTimeoutCert", "CreateAggregateQC", "SetAggQC"]},
